@@ -136,6 +136,8 @@ let () =
            | "D", pid :: k :: _ -> Some (on pid (EAdd (n_of_dec k)))
            | "R", pid :: k :: _ -> Some (on pid (ERemove (n_of_dec k)))
            | "F", pid :: _ -> Some (on pid EFinish)
+           | "W", pid :: k :: snap :: p :: _ ->
+             Some [MOn (n_of_dec pid, EAdd (n_of_dec k)); MOn (n_of_dec pid, EAddWait (ints snap, place p))]
            | "X", k :: _ -> Some [MGlobal (EFail (n_of_dec k))]
            | "O", b :: _ -> Some [MGlobal (EAuto (b = "1"))]
            | "B", order :: p :: _ -> Some [MBalance (ints order, mplace p)]
